@@ -357,6 +357,14 @@ def run(ctx: vlib.Ctx):
     t0 = _t.time()
     phases = {}
     F.preload()   # pool workers are forked from this process: they inherit the imported implementation
+    C.sweep_stale()
+    if ctx.replay:
+        import random as _random
+        try:
+            ctx.seed = int(json.loads(open(ctx.replay).read()).get("seed", ctx.seed))
+            ctx.rng = _random.Random(ctx.seed)   # scenarios are a function of the seed: replay with the seed of the failing run
+        except (OSError, ValueError):
+            raise vlib.Infra(f"cannot read replay file {ctx.replay}")
     ctx.translate(PROJECT)
     proj = ctx.lean(PROJECT, PROPS)
     phases["translate+lean build+audit"] = round(_t.time() - t0, 1)
